@@ -46,6 +46,7 @@ type World struct {
 
 	ssaw *ssaWorld // lazily built
 	sc   *summaryCache
+	factCache map[string]*KindFacts
 }
 
 func goEnv() []string {
